@@ -65,7 +65,7 @@ def add(c: Curve, a: Point, b: Point) -> Point:
     return (x3, (lam * (x1 - x3) - y1) % c.p)
 
 
-def mul(c: Curve, k: int, pt: Point) -> Point:
+def mul_affine(c: Curve, k: int, pt: Point) -> Point:
     k %= c.n
     acc: Point = None
     q = pt
@@ -75,6 +75,58 @@ def mul(c: Curve, k: int, pt: Point) -> Point:
         q = add(c, q, q)
         k >>= 1
     return acc
+
+
+def _jdbl(c: Curve, P):
+    X, Y, Z = P
+    if not Y or not Z:
+        return (1, 1, 0)
+    p = c.p
+    YY = Y * Y % p
+    S = 4 * X * YY % p
+    ZZ = Z * Z % p
+    M = 3 * (X - ZZ) * (X + ZZ) % p  # a = -3
+    X3 = (M * M - 2 * S) % p
+    return (X3, (M * (S - X3) - 8 * YY * YY) % p, 2 * Y * Z % p)
+
+
+def _jadd_affine(c: Curve, P, q):
+    """Jacobian P + affine q"""
+    X1, Y1, Z1 = P
+    if not Z1:
+        return (q[0], q[1], 1)
+    p = c.p
+    Z1Z1 = Z1 * Z1 % p
+    U2 = q[0] * Z1Z1 % p
+    S2 = q[1] * Z1 * Z1Z1 % p
+    H = (U2 - X1) % p
+    R = (S2 - Y1) % p
+    if not H:
+        if not R:
+            return _jdbl(c, P)
+        return (1, 1, 0)
+    HH = H * H % p
+    HHH = H * HH % p
+    V = X1 * HH % p
+    X3 = (R * R - HHH - 2 * V) % p
+    return (X3, (R * (V - X3) - Y1 * HHH) % p, Z1 * H % p)
+
+
+def mul(c: Curve, k: int, pt: Point) -> Point:
+    """left-to-right double-and-add in Jacobian coordinates (one inversion at the end)"""
+    k %= c.n
+    if pt is None or not k:
+        return None
+    acc = (1, 1, 0)
+    for bit in bin(k)[2:]:
+        acc = _jdbl(c, acc)
+        if bit == "1":
+            acc = _jadd_affine(c, acc, pt)
+    if not acc[2]:
+        return None
+    zi = pow(acc[2], -1, c.p)
+    zi2 = zi * zi % c.p
+    return (acc[0] * zi2 % c.p, acc[1] * zi2 * zi % c.p)
 
 
 def calibrate() -> t.List[str]:
@@ -89,6 +141,8 @@ def calibrate() -> t.List[str]:
             assert acc == (pn.x, pn.y) == mul(c, k, c.g), (c.name, k)
         for k in (c.n - 1, c.n - 2, 2 ** (c.size * 8 - 1), 0xDEADBEEF * 2**100 + 12345):
             pn = cec.derive_private_key(k, cc).public_key().public_numbers()
-            assert mul(c, k, c.g) == (pn.x, pn.y), (c.name, k)
+            assert mul(c, k, c.g) == (pn.x, pn.y) == mul_affine(c, k, c.g), (c.name, k)
+            q = mul(c, 7, c.g)
+            assert mul(c, k, q) == mul_affine(c, k, q) == mul(c, 7 * k, c.g)
         assert mul(c, c.n, c.g) is None
     return ["ec: P-256/P-384 k*G for k=1..20, n-1, n-2, 2^(bits-1) agree with cryptography"]
